@@ -1,6 +1,7 @@
 """C17: constants of BIP158 filters and BIP152 short ids (no straight-line functions: loops are hand-modelled)."""
 from btclib.block import block_filter
 from btclib.p2p import compact_blocks
+from btclib.block import block as block_mod
 
 NS = "Filter"
 
@@ -19,6 +20,11 @@ def constants():
         if not isinstance(v, int) or isinstance(v, bool) or v < 0:
             raise ValueError(f"{k} is not a natural number: {v!r}")
         txt += f"def {k} : Nat := {v}\n"
+    pre = block_mod._COMMITMENT_PREFIX
+    if not isinstance(pre, bytes) or block_mod._COMMITMENT_LENGTH != len(pre) + 32:
+        raise ValueError("BIP141 commitment prefix / length changed shape")
+    txt += "def COMMITMENT_PREFIX : Btc.Bytes := [" + ", ".join(str(x) for x in pre) + "]\n"
+    txt += f"def COMMITMENT_LENGTH : Nat := {block_mod._COMMITMENT_LENGTH}\n"
     return txt
 
 
